@@ -134,6 +134,7 @@ def run(repo, rep, tier):
     from . import c17
     L.borrow(repo, rep, "R03.5", "C17", c17._meta_group_roles,
              ("meta-group-roles",))
+    L.option_defaults_rule(repo, rep, "R03.5", ("implicit_i18n_translate", "trim_attribute_space"))
     L.state_rule(repo, rep)
 
 
